@@ -70,6 +70,7 @@ func callbackCall(f *ssa.Function) *ssa.Call {
 
 func runC14(c *Ctx) {
 	p := c.P
+	ruleAdaptersAlwaysAskTheScheme(c, "R14.2")
 	type variant struct {
 		outer string
 		ctx   bool
@@ -1008,4 +1009,51 @@ func ruleBearerCallbackGetsScopes(c *Ctx, rule string) {
 		}
 	}
 	c.obR(rule, "-", "token-callbacks", "-", n >= 2, "both bearer variants hand the required scopes to the callback", fmt.Sprintf("%d", n))
+}
+
+// ruleAdaptersAlwaysAskTheScheme: the two adapters every authenticator is wrapped in (HttpAuthenticator,
+// ScopedAuthenticator) hand the request to the scheme whenever the parameter they are given IS a request of a kind they
+// know — "not applicable" is their own answer only for a parameter of another type, never on grounds of what the
+// request asks for (scopes listed, a method, a header).
+func ruleAdaptersAlwaysAskTheScheme(c *Ctx, rule string) {
+	p := c.P
+	for _, outerName := range []string{"rt/security.HttpAuthenticator", "rt/security.ScopedAuthenticator"} {
+		outer := p.FnOpt(outerName)
+		if outer == nil {
+			continue
+		}
+		f := codecFuncOf(outer, 1, 3)
+		if f == nil {
+			c.obR(rule, outerName, "adapter-closure", "", false, "the adapter returns an authenticator function", "no func(interface{}) (bool, interface{}, error) literal found")
+			continue
+		}
+		isHandlerCall := func(in ssa.Instruction) bool {
+			call, ok := in.(*ssa.Call)
+			if !ok || call.Call.IsInvoke() {
+				return false
+			}
+			okH, _ := allOrigins(call.Call.Value, oIsValue(outer.Params[0]))
+			return okH
+		}
+		n := 0
+		for _, in := range instrs(f) {
+			ta, ok := in.(*ssa.TypeAssert)
+			if !ok || !ta.CommaOk || in.Parent() != f {
+				continue
+			}
+			okV := extractOf(ta, 1)
+			if okV == nil {
+				continue
+			}
+			n++
+			lost := false
+			for _, r := range realReturns(f) {
+				if pathExists(f, ta, r, factBool(vIs(okV), false), isHandlerCall) {
+					lost = true
+				}
+			}
+			c.obI(rule, ta, "recognised-request-always-reaches-the-scheme", !lost, "once the adapter has recognised its parameter as a request ("+typeStr(ta.AssertedType)+") it calls the wrapped scheme: whether credentials apply is the scheme's answer", "a return is reachable for a recognised request without the scheme having been asked (e.g. only when no scopes are listed): the authenticator reports 'not applicable' for a request that carries its credential")
+		}
+		c.obRF(rule, f, "adapter-recognises-requests", n >= 1, "the adapter tests the type of its parameter", "")
+	}
 }
